@@ -14,4 +14,5 @@ import RepidModel.Driver.Mem
 import RepidModel.Worker.Processor
 import RepidModel.Worker.Chain
 import RepidModel.Pred.Worker
+import RepidModel.Worker.Runner
 import RepidModel.Driver.Worker
